@@ -12,6 +12,7 @@ same run (the codec hypothesis is sampled on every generated pair).
 import binascii
 import json
 import os
+import re
 import subprocess
 from concurrent.futures import ThreadPoolExecutor
 
@@ -321,6 +322,23 @@ def oracle_stream(sc, body, extra):
     return res
 
 
+TOK = re.compile(r"(D\d+)!")
+
+
+def same_outcome(impl, model):
+    """equal lines; the only tolerated difference: the model's symbolic codec says a delta against a wrong base
+    cannot be applied (`Dn!`) while the real fdelta.Apply happened to reproduce the payload (`Dn`) because
+    the wrong base agrees with the right one on every copied range.  The oracle judges the implementation's
+    token either way."""
+    if impl == model:
+        return True
+    if TOK.sub(r"\1", impl) != TOK.sub(r"\1", model):
+        return False
+    ia = [m.group(0) for m in re.finditer(r"D\d+!?", impl)]
+    ma = [m.group(0) for m in re.finditer(r"D\d+!?", model)]
+    return len(ia) == len(ma) and all(a == b or (b == a + "!") for a, b in zip(ia, ma))
+
+
 # ----------------------------------------------------------------------------- run
 def run_parallel(ctx, binary, test, ops, workers=4):
     n = len(ops)
@@ -427,10 +445,10 @@ def run(ctx):
         except FileNotFoundError:
             pass
         scs = [parse(o) for o in known + corpus]
-        nst = ctx.scale(220, 12000)
-        nmp = 0
+        nst = ctx.scale(200, 12000)
+        nmp = ctx.scale(80, 4000)
         scs += [gen_stream(ctx.rng, ctx.thorough) for _ in range(nst)]
-        scs += [gen_map(ctx.rng, ctx.thorough) for _ in range(nmp)]
+        scs += [gen_map(ctx.rng, ctx.thorough, gen_payloads) for _ in range(nmp)]
     ops = [fmt(sc) for sc in scs]
     ctx.log(f'harness built; running {len(ops)} scenarios')
     impl = run_parallel(ctx, binary, "TestVerifC14", ops, workers=4)
@@ -481,7 +499,7 @@ def run(ctx):
                 ctx.violation("property", msg, signature=sig,
                               replay={"ops": [fmt(small)], "impl": [sbody], "original_ops": [ops[i]] if len(ops[i]) < 20000 else []})
         b = model[i] if i < len(model) else "<missing>"
-        if body != b:
+        if not same_outcome(body, b):
             ndiff += 1
             if ndiff <= 3:
                 ctx.violation("correspondence", f"model and implementation differ: impl `{body[:300]}` model `{b[:300]}`",
